@@ -63,7 +63,10 @@ Section Files.
      the CID (and the state of its checks) is shared by all files *)
   Definition validate_file (c : cid CS) (limit : option nat) (sts : list CS) (f : data_file) : file_status * list CS :=
     match f with
-    | Unreadable => (FileUnreadable, sts)
+    | Unreadable =>
+        (* rows() has reset the checks when opening the file raises OSError inside `with Reader`: __exit__ runs
+           close() on the zero rows seen, a failed end check is dropped and the OSError stays on its way *)
+        let '(sts', _, _) := close c (resets (c_checks c)) {| l_line := 0; l_cell := 0 |} in (FileUnreadable, sts')
     | Readable raws fault =>
         let r := api_rows c MRaise limit sts raws fault in
         (match r_raised r with None => FileAccepted | Some _ => FileRejected end, r_sts r)
